@@ -21,15 +21,15 @@ OPS = [
 ]
 
 
-def generate(maxsrc, maxins, maxtgt, simulate=None, seed=0, ops=None, timeout=1800):
+def generate(maxsrc, maxins, maxtgt, simulate=None, seed=0, ops=None, timeout=1800, minsrc=0):
     """-> list of (key, sfs json).  simulate = (number of behaviours, depth)"""
     if common.replay_file():
         return []
     ops = ops or list(range(len(OPS)))
     table = [OPS[i] for i in ops]
-    gf = os.path.join(common.workdir(), "sfsgen_%s.json" % common.stable_hash([ops, maxsrc, maxins, maxtgt, simulate, seed]))
+    gf = os.path.join(common.workdir(), "sfsgen_%s.json" % common.stable_hash([ops, minsrc, maxsrc, maxins, maxtgt, simulate, seed]))
     common.write_json(gf, {"ops": [{"ar": o[1], "out": o[2], "kind": o[3], "comm": o[4]} for o in table],
-                           "maxsrc": maxsrc, "maxins": maxins, "maxtgt": maxtgt})
+                           "minsrc": minsrc, "maxsrc": maxsrc, "maxins": maxins, "maxtgt": maxtgt})
     extra = []
     if simulate:
         extra = ["-simulate", "num=%d" % simulate[0], "-depth", str(simulate[1]), "-seed", str(seed + 1)]
